@@ -46,6 +46,11 @@ func register(c *Check) { registry[c.ID] = c }
 
 func main() {
 	debug.SetGCPercent(200)
+	// go/packages resolves "go" through this process's PATH: the default go (1.23.5) refuses /repo's go.mod under GOTOOLCHAIN=local.
+	os.Setenv("PATH", "/opt/veriftools/go1.26.8/bin:"+os.Getenv("PATH"))
+	os.Unsetenv("GOOS")
+	os.Unsetenv("GOARCH")
+	os.Unsetenv("GOWORK")
 	if len(os.Args) < 2 {
 		usage()
 	}
